@@ -17,7 +17,38 @@ COGEN = [31, 32, 41, 42, 51, 52]
 DH_FILE = str(REPO / 'tests' / 'examples' / 'cornell_heat_demand.csv')
 
 
+def profile_file(rng: random.Random, L: int, n: int) -> str:
+    """A user-provided reservoir temperature profile (reservoir model 5): L*n+1 lines `time, temperature`, gently varying, not monotone."""
+    import hashlib
+    from .common import CACHE
+    t0 = rng.uniform(150, 230)
+    drop = rng.uniform(0.0, 0.25)
+    wob = rng.uniform(0.0, 3.0)
+    lines = []
+    for k in range(L * n + 1):
+        x = k / max(1, L * n)
+        lines.append(f'{k / n:.6f}, {t0 * (1 - drop * x) + wob * ((k * 7) % 5 - 2) / 2:.6f}')
+    text = '\n'.join(lines) + '\n'
+    d = CACHE / 'profiles'
+    d.mkdir(parents=True, exist_ok=True)
+    f = d / (hashlib.sha256(text.encode()).hexdigest()[:16] + '.txt')
+    if not f.exists():
+        f.write_text(text)
+    return str(f)
+
+
 def to_text(params: dict) -> str:
+    f = str(params.get('Reservoir Output File Name', ''))
+    if '/profiles/' in f and 'Plant Lifetime' in params and 'Time steps per year' in params:
+        # a generated profile must follow later changes of lifetime / time steps (L * n + 1 lines)
+        L, n = int(params['Plant Lifetime']), int(params['Time steps per year'])
+        try:
+            have = sum(1 for _ in open(f))
+        except OSError:
+            have = -1
+        if have != L * n + 1:
+            params = dict(params)
+            params['Reservoir Output File Name'] = profile_file(random.Random(f + f'|{L}|{n}'), L, n)
     return ''.join(f'{k}, {v}\n' for k, v in params.items())
 
 
@@ -81,6 +112,8 @@ def base(rng: random.Random, resmodel: int = 4, enduse: int = 1, plant: int = 1,
         p['Drawdown Parameter'] = fmt(rng.uniform(0.0005, 0.02))
     elif resmodel == 3:
         p['Drawdown Parameter'] = fmt(rng.uniform(1e-4, 2e-3))  # kg/s/m^2
+    elif resmodel == 5:
+        p['Reservoir Output File Name'] = profile_file(rng, L, n)
     elif resmodel in (1, 2):
         p['Fracture Shape'] = rng.choice([1, 2, 3, 4])
         p['Fracture Height'] = fmt(rng.uniform(400, 1000))
